@@ -388,18 +388,27 @@ class Model:
         package stores to an attribute of that name (so that reading it off an instance finds the class-level value); else None"""
         stored = getattr(self, '_stored_attr_names', None)
         if stored is None:
-            stored = set()
+            stored = {}         # attribute name -> classes whose methods store it on self; None in the set: stored on some other object (of any class)
             for fn in list(self.all_funcs()) + [self.module_func(m_) for m_ in self.mods]:
                 if fn is None:
                     continue
+                host = fn
+                while getattr(host, 'parent', None) is not None:
+                    host = host.parent
                 for n in ast.walk(fn.node):
                     if isinstance(n, ast.Attribute) and isinstance(n.ctx, (ast.Store, ast.Del)):
-                        stored.add(n.attr)
+                        on_self = isinstance(n.value, ast.Name) and n.value.id == 'self' and host.cls is not None and not host.is_static
+                        stored.setdefault(n.attr, set()).add(host.cls.name if on_self else None)
                     elif isinstance(n, ast.Call) and isinstance(n.func, ast.Name) and n.func.id == 'setattr' and len(n.args) >= 2:
-                        stored.add(n.args[1].value if isinstance(n.args[1], ast.Constant) else '*')
+                        stored.setdefault(n.args[1].value if isinstance(n.args[1], ast.Constant) else '*', set()).add(None)
             self._stored_attr_names = stored
-        if attr in stored or '*' in stored:
+        if '*' in stored:
             return None
+        if attr in stored:
+            # an instance of cls is one of cls, of a base (never: it IS a cls) or of a subclass: what sibling classes store on THEIR instances does not reach it
+            family = {k.name for k in cls.mro()} | {d.name for d in self.subclasses(cls)}
+            if None in stored[attr] or stored[attr] & family:
+                return None
         for k in cls.mro():
             if attr in k.class_attrs:
                 return (k, k.class_attrs[attr]) if k.lookup(attr) is None or attr not in k.methods else None
